@@ -166,7 +166,7 @@ Qed.
 Theorem dec_enc f : wf f -> forall v b r,
   enc f v = Some b -> (sd f \/ r = []) -> dec f (b ++ r) = Some (v, r).
 Proof.
-  induction 1 as [ | | | p | n | | | c | | k g Hg IHg | a k Hsa Ha IHa Hk IHk | g Hsg Hg IHg];
+  induction 1 as [ | | | p | lim | n | | | c | | k g Hg IHg | a k Hsa Ha IHa Hk IHk | g Hsg Hg IHg];
     intros v b r E T.
   - (* U8 *) destruct v; try discriminate. cbn in E.
     destruct (n <? 256) eqn:L; [|discriminate]. injection E as <-. apply N.ltb_lt in L.
@@ -180,6 +180,10 @@ Proof.
   - (* Enum *) destruct v; try discriminate. cbn in E.
     destruct (n <? 256) eqn:L; [|discriminate]. injection E as <-. apply N.ltb_lt in L.
     cbn. rewrite b2n_n2b_small by exact L. reflexivity.
+  - (* OctLt *) destruct v; try discriminate. cbn in E.
+    destruct ((n <? 256) && (n <? lim)) eqn:L; [|discriminate]. injection E as <-.
+    apply andb_true_iff in L. destruct L as [L1 L2]. apply N.ltb_lt in L1.
+    cbn. rewrite b2n_n2b_small by exact L1. rewrite L2. reflexivity.
   - (* Bytes *) destruct v as [|b0| | | |]; try discriminate. cbn in E.
     destruct (lenN b0 =? n) eqn:L; [|discriminate]. injection E as <-. apply N.eqb_eq in L.
     cbn [dec].
@@ -245,7 +249,7 @@ Qed.
 Theorem enc_dec f : wf f -> forall b v r,
   dec f b = Some (v, r) -> exists b', enc f v = Some b' /\ b = b' ++ r.
 Proof.
-  induction 1 as [ | | | p | n | | | c | | k g Hg IHg | a k Hsa Ha IHa Hk IHk | g Hsg Hg IHg];
+  induction 1 as [ | | | p | lim | n | | | c | | k g Hg IHg | a k Hsa Ha IHa Hk IHk | g Hsg Hg IHg];
     intros b v r D.
   - destruct b as [|a b]; [discriminate|]. cbn in D. injection D as <- <-.
     pose proof (b2n_lt a) as L. apply N.ltb_lt in L. cbn. rewrite L, n2b_b2n.
@@ -258,6 +262,10 @@ Proof.
     eexists; split; reflexivity.
   - destruct b as [|a b]; [discriminate|]. cbn in D. injection D as <- <-.
     pose proof (b2n_lt a) as L. apply N.ltb_lt in L. cbn. rewrite L, n2b_b2n.
+    eexists; split; reflexivity.
+  - destruct b as [|a b]; [discriminate|]. cbn in D.
+    destruct (b2n a <? lim) eqn:L2; [|discriminate]. injection D as <- <-.
+    pose proof (b2n_lt a) as L. apply N.ltb_lt in L. cbn. rewrite L, L2, n2b_b2n.
     eexists; split; reflexivity.
   - cbn in D. destruct (n <=? lenN b) eqn:L; [|discriminate]. injection D as <- <-.
     apply N.leb_le in L. cbn.
